@@ -97,7 +97,7 @@ type Explorer struct {
 }
 
 func NewExplorer(p *Program, harness string, s *Solver) *Explorer {
-	return &Explorer{Prog: p, Harness: harness, Solver: s, MaxLoop: 3000, MaxSteps: 2000000, MaxPaths: 5000000,
+	return &Explorer{Prog: p, Harness: harness, Solver: s, MaxLoop: 20000, MaxSteps: 8000000, MaxPaths: 5000000,
 		IfConvert: true, MapPerms: 0, PanicIsViolation: true,
 		Aborted: map[string]int{}, AbortSamples: map[string]string{}, ReachedAll: map[string]int{}, AssertSeen: map[string]int{},
 		Deadlocks: map[string]int{}, SprintfMax: 2,
